@@ -94,7 +94,8 @@ func genVarsBody(t *rapid.T) VarsCase {
 		case 0:
 			v.Kind = "exec"
 			if rapid.IntRange(0, 7).Draw(t, "execfail") == 0 {
-				v.Text, v.Fail = "exit 3", true
+				// exits non-zero, or cannot be started at all (neither script nor binary; no such interpreter)
+				v.Text, v.Fail = rapid.SampledFrom([]string{"exit 3", "exit 3", "@TOOLS@/garbage", "@TOOLS@/badinterp", "no-such-program-anywhere"}).Draw(t, "failing_exec"), true
 			} else {
 				ch := rapid.SampledFrom(execChoices).Draw(t, "exec")
 				v.Text, v.Want = ch.arg, ch.want
@@ -205,6 +206,13 @@ func execVars(s *ev.Shard, b *sandbox.Box, c VarsCase) *rp.Fail {
 	}
 	b.FileOutputs = c.Outputs == "files"
 	src, _ := c.source()
+	tools := filepath.Join(b.Home, "tools")
+	src = strings.ReplaceAll(src, "@TOOLS@", tools)
+	if err := writeProject(b, b.Home, map[string]string{"tools/garbage": "\x01\x02 neither a script nor a binary\n", "tools/badinterp": "#!/no/such/interpreter\necho hi\n"}); err != nil {
+		return &rp.Fail{Sig: "harness", Msg: err.Error()}
+	}
+	_ = os.Chmod(filepath.Join(tools, "garbage"), 0o755)
+	_ = os.Chmod(filepath.Join(tools, "badinterp"), 0o755)
 	files := map[string]string{"spokfile": src, "nested/dir/": "", "real/sub/": "", "out/dir/": "", "gate.txt": "gate"}
 	if len(c.DotEnv) > 0 {
 		var keys []string
